@@ -216,4 +216,21 @@ def task_dist_truncnormal(task):
         true = mpmath.quad(lambda x: x ** k * mpmath.npdf((x - mu) / s) / (s * Z), [a, mu, b] if a < mu < b else [a, b])
         err = abs(mpmath.mpf(got.p) / got.q - true)
         out[str(k)] = {"got": str(got), "true": mpmath.nstr(true, 20), "abs_err": float(err)}
+    # VALIDATION of the transforms at points t != 0 (real for mgf, also for cf): value of the real mgf(t) / cf(t)
+    # against quadrature of exp(t x) pdf(x) / exp(i t x) pdf(x)
+    pts = [a, mu, b] if a < mu < b else [a, b]
+    for t in task.get("ts", []):
+        tt = mpmath.mpf(Fraction(t).numerator) / Fraction(t).denominator
+        for which in ("mgf", "cf"):
+            try:
+                ex = sp.sympify(getattr(d, which)(sp.Rational(Fraction(t).numerator, Fraction(t).denominator)))
+                got = complex(sp.N(ex, 30))
+            except BaseException as e:  # noqa
+                out[f"{which}@{t}"] = {"error": f"{type(e).__name__}: {str(e)[:120]}"}
+                continue
+            if which == "mgf":
+                true = mpmath.quad(lambda x: mpmath.exp(tt * x) * mpmath.npdf((x - mu) / s) / (s * Z), pts)
+            else:
+                true = mpmath.quad(lambda x: mpmath.exp(1j * tt * x) * mpmath.npdf((x - mu) / s) / (s * Z), pts)
+            out[f"{which}@{t}"] = {"got": repr(got), "true": mpmath.nstr(true, 20), "abs_err": float(abs(mpmath.mpc(got) - true))}
     return out
